@@ -1,8 +1,10 @@
 /-
 C19 — fetched crate sources stay inside the cache and are used only if fully unpacked.
-Both halves are false on the current tree for archives with link entries or an archive-supplied
-completion marker (known findings): kernel-evaluated witnesses below, reproduced on the real
-unpacker by the harness.  What holds is proved for archives without such entries.
+Confinement is false on the current tree for archives with link entries (known finding F8):
+kernel-evaluated witness below, reproduced on the real unpacker by the harness.  The completion-marker
+half used to be false for an archive-supplied marker (F7); since the fix `unpack_package` skips the
+archive's own `<prefix>/.cargo-ok`, and `C19_marker` / `C19_retry` hold for every link-free archive
+(the older `*_partial` statements with the now superfluous `hnm` hypothesis are kept unchanged).
 Property theorems only; helper lemmas live in Vet/Lemmas/Unpack.lean, UnpackSpec.lean, UnpackTop.lean
 (the two conversion lemmas below are here because `isLink` / `namesMarker` are defined here).
 `C19_complete_is_ok` as first stated is false for very deep source directories (fuel of `canon`):
@@ -54,8 +56,8 @@ theorem C19_marker_partial (fs : FS) (srcDir : Path) (prefix_ : Nat) (archive : 
     (hfs : NoLinksUnder fs srcDir) (hsrc : lookup fs srcDir = some .dir) (hcanon : canon fs 64 [] srcDir = some srcDir) :
     fetchIsOk (unpackPackage fs srcDir prefix_ archive (some k)) srcDir prefix_ = false := by
   have _ := hsrc  -- not needed: `hcanon` already makes `srcDir` present and link-free
-  exact fetchIsOk_crashed fs srcDir prefix_ archive (kind_of_isLink hnl) hfs hcanon
-    (relOf_of_namesMarker hnm) k
+  have _ := hnm   -- no longer needed since the archive's own marker entry is skipped: `C19_marker`
+  exact fetchIsOk_crashed fs srcDir prefix_ archive (kind_of_isLink hnl) hfs hcanon k
 
 /-- ... and the next fetch unpacks again from scratch: its result is what an uninterrupted
 unpack of the same archive into the same cache produces -/
@@ -66,8 +68,8 @@ theorem C19_retry_partial (fs : FS) (srcDir : Path) (prefix_ : Nat) (archive : L
     lookup (fetch (unpackPackage fs srcDir prefix_ archive (some k)) srcDir prefix_ archive) q =
     lookup (unpackPackage fs srcDir prefix_ archive none) q := by
   have _ := hsrc  -- not needed: `hcanon` already makes `srcDir` present and link-free
-  have hno := fetchIsOk_crashed fs srcDir prefix_ archive (kind_of_isLink hnl) hfs hcanon
-    (relOf_of_namesMarker hnm) k
+  have _ := hnm   -- no longer needed since the archive's own marker entry is skipped: `C19_retry`
+  have hno := fetchIsOk_crashed fs srcDir prefix_ archive (kind_of_isLink hnl) hfs hcanon k
   simp only [fetch, hno, Bool.false_eq_true, if_false]
   exact unpackPackage_congr0 srcDir prefix_ archive none
     (fs0_crashed_equiv fs srcDir prefix_ archive (kind_of_isLink hnl) hfs hcanon k) q
@@ -83,6 +85,28 @@ theorem C19_complete_is_ok_partial2 (fs : FS) (srcDir : Path) (prefix_ : Nat) (a
     fetchIsOk (unpackPackage fs srcDir prefix_ archive none) srcDir prefix_ = true := by
   have _ := hsrc  -- not needed: `hcanon` already makes `srcDir` present and link-free
   exact fetchIsOk_complete fs srcDir prefix_ archive (kind_of_isLink hnl) hfs hcanon hlen hall
+
+/-- After the fix the completion-marker half of C19 holds for every link-free archive, whatever
+entry names it contains, including its own `.cargo-ok`: after an interruption at any point the
+directory is not considered fetched. -/
+theorem C19_marker (fs : FS) (srcDir : Path) (prefix_ : Nat) (archive : List Entry) (k : Nat)
+    (hnl : ∀ e ∈ archive, isLink e = false)
+    (hfs : NoLinksUnder fs srcDir) (hsrc : lookup fs srcDir = some .dir) (hcanon : canon fs 64 [] srcDir = some srcDir) :
+    fetchIsOk (unpackPackage fs srcDir prefix_ archive (some k)) srcDir prefix_ = false := by
+  have _ := hsrc  -- not needed: `hcanon` already makes `srcDir` present and link-free
+  exact fetchIsOk_crashed fs srcDir prefix_ archive (kind_of_isLink hnl) hfs hcanon k
+
+/-- ... and the retry unpacks from scratch -/
+theorem C19_retry (fs : FS) (srcDir : Path) (prefix_ : Nat) (archive : List Entry) (k : Nat)
+    (hnl : ∀ e ∈ archive, isLink e = false)
+    (hfs : NoLinksUnder fs srcDir) (hsrc : lookup fs srcDir = some .dir) (hcanon : canon fs 64 [] srcDir = some srcDir)
+    (q : Path) :
+    lookup (fetch (unpackPackage fs srcDir prefix_ archive (some k)) srcDir prefix_ archive) q =
+    lookup (unpackPackage fs srcDir prefix_ archive none) q := by
+  have hno := C19_marker fs srcDir prefix_ archive k hnl hfs hsrc hcanon
+  simp only [fetch, hno, Bool.false_eq_true, if_false]
+  exact unpackPackage_congr0 srcDir prefix_ archive none
+    (fs0_crashed_equiv fs srcDir prefix_ archive (kind_of_isLink hnl) hfs hcanon k) q
 
 /-! Known findings: witnesses (cache root `[9]`, source dir `[9, 5]`, crate 1, sibling crate 2). -/
 
